@@ -85,3 +85,9 @@ mut("C04", "proto_cell_basis_displaced", ("matid/core/periodicfinder.py", "     
      "                group_avg = np.mean(final_pos, axis=0) + 0.03 * i_group\n                averaged_rel_pos.append(group_avg)\n                averaged_rel_num.append(group_num)\n\n            if i_group == seed_group_index:\n                new_group_index = len(averaged_rel_num) - 1\n        seed_group_index = new_group_index\n\n        # If no atoms are found in the proto cell, return without results\n        if not averaged_rel_pos or not averaged_rel_num:\n            return None, None, None\n\n        averaged_rel_pos = np.array(averaged_rel_pos)\n\n        proto_cell = Atoms(\n            scaled_positions=averaged_rel_pos,\n            symbols=averaged_rel_num,\n            cell=best_spans,\n            pbc=[True, True, True],"),
     note="atoms of the 2nd, 3rd ... basis group are displaced: breaks the symmetry of multi-atom bases only")
 mut("C18", "distances_before_wrap", (CLF, "        cell = system.get_cell()\n        distances = matid.geometry.get_distances(system)", "        cell = system.get_cell()\n        distances = matid.geometry.get_distances(input_system)"))
+mut("C05", "reset_keeps_conventional_system", (SA, "        self._symmetry_dataset = None\n\n        self._conventional_system = None\n", "        self._symmetry_dataset = None\n\n        if not hasattr(self, '_conventional_system'):\n            self._conventional_system = None\n"),
+    note="history: the cache is initialised once but not cleared by reset(); only visible when one analyzer object is reused through set_system()")
+mut("C12", "reset_keeps_best_transform", (SA, "        self._best_transform = None\n\n    def get_material_id", "        if not hasattr(self, '_best_transform'):\n            self._best_transform = None\n\n    def get_material_id"),
+    note="history: stale letter permutation of the previously analysed crystal; only visible when get_wyckoff_letters_original() is the first getter called after set_system()")
+mut("C05", "reset_keeps_symmetry_dataset", (SA, "        \"\"\"Used to reset all the cached values.\"\"\"\n        self._symmetry_dataset = None\n", "        \"\"\"Used to reset all the cached values.\"\"\"\n        if not hasattr(self, '_symmetry_dataset'):\n            self._symmetry_dataset = None\n"),
+    note="history: stale spglib dataset of the previously analysed crystal")
